@@ -39,6 +39,9 @@ MXSS = ["<style><!--</style><img src=x onerror=alert(1)>-->", "<title>&lt;img sr
         "<keygen autofocus onfocus=1>", "<details open ontoggle=1>", "<marquee onstart=1>", "<video><source onerror=1>", "<body onload=1>", "<input type=image src=x onerror=1>", "<isindex action=javascript:1>",
         "<template><script>x</script></template>", "<frameset><frame src=javascript:1>",
         # doctype identifiers and attribute values whose safety rests on what the tokenizer can (not) put into them
+        "<svg><desc><li>a</li></desc><title><p title=\"</title><img src=x onerror=alert(1)>\">", "<svg><desc><b><p>x</p></b></desc><title><p title=\"</title><img src onerror=alert(1)>\">",
+        "<math><mtext><dd>d</dd></mtext><annotation-xml encoding=text/html><textarea></textarea></annotation-xml>", "<svg><foreignObject><td>c</td></foreignObject><title><a title='</title><script>x</script>'>",
+        "<svg><desc><option>o</option></desc><title><b id='</title><img src=x onerror=1>'>", "<i><p>x</p></i><textarea>y</textarea><a title='</textarea><img onerror=1 src=x>'>",
         "<p><b title=\"</textarea><img src=x onerror=alert(1)>\"></p><textarea>x</textarea>", "<i id='</title><script>x</script>'><title>t</title>", "<a href=\"x</textarea><img src=x onerror=1>\"><textarea>\ny",
         "<b class='</textarea><svg onload=1>'><table><tr><td><textarea>z",
         "<!DOCTYPE html PUBLIC 'x><img src=x onerror=alert(1)>'>", "<!DOCTYPE html PUBLIC \"x><script>alert(1)</script>\">", "<!DOCTYPE html SYSTEM 'a><img src=x onerror=1>'>",
@@ -80,13 +83,13 @@ def decode_cfg(data):
     return opts, first, second
 
 
-def tree_violation(fl, lists, letthrough, doc):
-    """Evaluate the allow-list predicate on a flat re-parsed tree -> None or (bucket, message, record)."""
+def tree_violations(fl, lists, letthrough, doc):
+    """Evaluate the allow-list predicate on a flat re-parsed tree: yields every (bucket, message, record) - a recorded finding may
+    excuse one record, never the records after it."""
     for r in fl[1:]:
         k = r[1]
         if k == "comment":
-            return "comment", "a comment node %r appears after re-parsing" % r[2][:60], r
-        if k == "doctype":
+            yield "comment", "a comment node %r appears after re-parsing" % r[2][:60], r
             continue
         if k != "elem":
             continue
@@ -96,24 +99,70 @@ def tree_violation(fl, lists, letthrough, doc):
             pass
         else:
             if key not in lists["allowed_elements"]:
-                return "element", "element (%s, %s) appears after re-parsing but is not on the allow-list" % key, r
-            if key not in letthrough and key not in IMPLIED:
-                return "element-origin", "element (%s, %s) appears after re-parsing but no such tag was let through by the sanitizer" % key, r
+                yield "element", "element (%s, %s) appears after re-parsing but is not on the allow-list" % key, r
+            elif key not in letthrough and key not in IMPLIED:
+                yield "element-origin", "element (%s, %s) appears after re-parsing but no such tag was let through by the sanitizer" % key, r
         for a in r[4]:
             akey = (a[0], a[1])
             if akey not in lists["allowed_attributes"]:
-                return "attribute", "attribute %r on <%s> appears after re-parsing but is not on the allow-list" % (akey, r[3]), r
+                yield "attribute", "attribute %r on <%s> appears after re-parsing but is not on the allow-list" % (akey, r[3]), r
+                continue
             if akey in lists.get("_uri_attrs_oracle", lists["attr_val_is_uri"]):
                 scheme, rest = c09.url_scheme(a[2])
                 if scheme is not None:
                     if scheme not in lists["allowed_protocols"]:
-                        return "scheme", "after re-parsing %r=%r has the disallowed scheme %r" % (akey, a[2][:80], scheme), r
-                    if scheme == "data" and c09.data_mime_essence(rest) not in lists["allowed_content_types"]:
-                        return "data-type", "after re-parsing %r=%r is a data: URL of a disallowed type" % (akey, a[2][:80]), r
+                        yield "scheme", "after re-parsing %r=%r has the disallowed scheme %r" % (akey, a[2][:80], scheme), r
+                    elif scheme == "data" and c09.data_mime_essence(rest) not in lists["allowed_content_types"]:
+                        yield "data-type", "after re-parsing %r=%r is a data: URL of a disallowed type" % (akey, a[2][:80]), r
             if akey == (None, "style"):
                 msg = c09.css_violation(a[2], lists)
                 if msg:
-                    return "css", "after re-parsing: " + msg, r
+                    yield "css", "after re-parsing: " + msg, r
+
+
+def tree_violation(fl, lists, letthrough, doc):
+    return next(tree_violations(fl, lists, letthrough, doc), None)
+
+
+SVG_NS = "http://www.w3.org/2000/svg"
+MATH_NS = "http://www.w3.org/1998/Math/MathML"
+_BREAKOUT = frozenset("""b big blockquote body br center code dd div dl dt em embed h1 h2 h3 h4 h5 h6 head hr i img li listing menu meta nobr ol p pre
+ruby s small span strong strike sub sup table tt u ul var font""".split())
+
+
+def inexpressible_nesting(let):
+    """Does the sanitized token stream nest elements in a way HTML syntax cannot express (so that NO serialization can read back as
+    the same tree)?  An HTML element directly inside a foreign element that is not an integration point, a foreign element other
+    than svg/math directly inside HTML content, or a foreign element whose name makes the parser leave foreign content.
+    This is the recorded finding C10-namespace-shift: the serializer writes such trees without an error."""
+    stack = []     # (ns, name, attrs)
+    for t in let:
+        ty = t["type"]
+        if ty in ("StartTag", "EmptyTag"):
+            ns = t["namespace"] if t["namespace"] is not None else HTML_NS
+            name = t["name"]
+            if stack:
+                pns, pname, pattrs = stack[-1]
+                p_foreign = pns != HTML_NS
+                integration = (pns == SVG_NS and pname in ("foreignObject", "desc", "title")) or \
+                              (pns == MATH_NS and pname == "annotation-xml" and (pattrs.get((None, "encoding")) or "").lower() in ("text/html", "application/xhtml+xml")) or \
+                              (pns == MATH_NS and pname in ("mi", "mo", "mn", "ms", "mtext"))
+                if ns == HTML_NS and p_foreign and not integration:
+                    return "HTML <%s> directly inside foreign <%s>" % (name, pname)
+                if ns != HTML_NS:
+                    if not p_foreign or integration:
+                        if not ((ns == SVG_NS and name == "svg") or (ns == MATH_NS and name == "math")) and not (pns == MATH_NS and pname == "annotation-xml" and ns == SVG_NS and name == "svg"):
+                            return "foreign <%s> directly inside HTML content" % name
+                    elif ns != pns and not (pns == MATH_NS and pname == "annotation-xml" and name == "svg"):
+                        return "<%s> of another foreign namespace inside <%s>" % (name, pname)
+                    if name in _BREAKOUT:
+                        return "foreign element named <%s> (a parser leaves foreign content at that name)" % name
+            elif ns != HTML_NS and not ((ns == SVG_NS and name == "svg") or (ns == MATH_NS and name == "math")):
+                return "foreign <%s> at top level" % name
+            if ty == "StartTag":
+                stack.append((ns, name, t["data"]))
+        elif ty == "EndTag" and stack:
+            stack.pop()
     return None
 
 
@@ -182,20 +231,33 @@ def check_case(case):
     sig = sig64(tuple((r[0], r[1], r[3] if r[1] == "elem" else None) for r in fl), sorted(opts.items()), second["container"], second["scripting"], enc, inject)
     opts = dict(opts, encoding=enc, inject_meta_charset=inject)
     classes = ["reparse:" + str(second["container"]), "scripting2:%s" % second["scripting"]]
-    res = tree_violation(fl, lists, letthrough, doc)
+    known = None
+    res = None
+    inexpressible = inexpressible_nesting(let) if active("C10-namespace-shift") else None
+    for bucket, msg, rec in tree_violations(fl, lists, letthrough, doc):
+        if inexpressible:
+            # the sanitized tree itself cannot be written in HTML syntax: whatever the re-parse makes of it is the recorded finding
+            known = known or "C10-namespace-shift"
+            continue
+        if bucket in ("element", "element-origin") and active("C10-namespace-shift"):
+            # recorded: the serializer writes bare local names, so an element allowed in one namespace can re-parse into another
+            if any(n.lower() == rec[3].lower() for (ns, n) in letthrough):
+                known = known or "C10-namespace-shift"
+                continue
+        if bucket == "attribute" and active("C10-attr-prefix-dropped"):
+            # recorded: namespaced attributes are written by local name only (xml:base -> base), so an attribute that is allowed
+            # only in its namespace comes back un-namespaced
+            bad = [(a[0], a[1]) for a in rec[4] if (a[0], a[1]) not in lists["allowed_attributes"]]
+            if bad and all(k[0] is None and any(l[0] is not None and l[1].lower() == k[1].lower() for l in let_attrs) for k in bad):
+                known = known or "C10-attr-prefix-dropped"
+                continue
+        res = (bucket, msg, rec)
+        break
     if res is None:
+        if known:
+            return Verdict("known", finding=known, nontrivial=nontrivial, sig=sig, classes=classes)
         return Verdict("pass", nontrivial=nontrivial, sig=sig, classes=classes)
     bucket, msg, rec = res
-    if bucket in ("element", "element-origin") and active("C10-namespace-shift"):
-        # recorded: the serializer writes bare local names, so an element allowed in one namespace can re-parse into another
-        if any(n.lower() == rec[3].lower() for (ns, n) in letthrough):
-            return Verdict("known", finding="C10-namespace-shift", nontrivial=nontrivial, sig=sig, classes=classes)
-    if bucket == "attribute" and active("C10-attr-prefix-dropped"):
-        # recorded: namespaced attributes are written by local name only (xml:base -> base), so an attribute that is allowed
-        # only in its namespace comes back un-namespaced
-        bad = [(a[0], a[1]) for a in rec[4] if (a[0], a[1]) not in lists["allowed_attributes"]]
-        if bad and all(k[0] is None and any(l[0] is not None and l[1].lower() == k[1].lower() for l in let_attrs) for k in bad):
-            return Verdict("known", finding="C10-attr-prefix-dropped", nontrivial=nontrivial, sig=sig, classes=classes)
     return Verdict("fail", "%s\ninput %s\nfirst=%s opts=%s\nsanitized output: %s\nre-parse=%s" % (msg, short(text, 300), first, opts, short(out, 400), second),
                    "reparse:" + bucket + ":" + str(second["container"]), nontrivial=nontrivial, sig=sig, classes=classes)
 
